@@ -149,6 +149,11 @@ impl Run {
         match self.focus {
             // C04 / C07 compare every acquisition with the observed arrival order and nothing else
             Some(f) if matches!(f, "C01" | "C04" | "C07" | "C17" | "C18") => prop != f && also != Some(f) && kind != "panic",
+            // Pure observations that leave the reference model untouched do not end the history of
+            // a check for another property: an allocation inside a call (C18) and a wrong answer
+            // of `is_terminated()` (C17). What the primitive does next is still comparable with the
+            // model, and it is often exactly there that the checked property is contradicted.
+            Some(f) if prop != f && also != Some(f) => prop == "C18" || (prop == "C17" && kind.ends_with("is_terminated-mismatch")),
             _ => false,
         }
     }
